@@ -75,7 +75,8 @@ pub fn write_lines(path: &str, lines: &[Value]) {
     let f = std::fs::File::create(path).expect("create");
     let mut w = std::io::BufWriter::new(f);
     for l in lines {
-        serde_json::to_writer(&mut w, &no_nulls(l)).unwrap();
+        // (case files are read back by this harness, not by TLC, and keep their nulls)
+        if path.contains(".cases") { serde_json::to_writer(&mut w, l).unwrap(); } else { serde_json::to_writer(&mut w, &no_nulls(l)).unwrap(); }
         w.write_all(b"\n").unwrap();
     }
 }
